@@ -4,3 +4,4 @@
 #include "qm_thread.h"
 #include "qm_regex.h"
 #include "qm_json.h"
+#include "qm_fs.h"
